@@ -1003,18 +1003,33 @@ func c13Blocks(g *hx.WireGen, grams []*hx.CmdGrammar, c *hx.Client, twin *redka.
 				g.Keys = saved
 				return
 			}
-			g.ResetKeySeq(seq...)
-			var args []string
-			if cg.Combs != nil {
-				args = g.VectorOpts(cg, nil)
-			} else {
-				args = g.Vector(cg, 0)
-			}
-			g.ResetKeySeq()
-			blockNo++
-			if !runBlock([][]string{{"SET", "marker1", fmt.Sprint("a", blockNo)}, args, {"SET", "marker2", fmt.Sprint("b", blockNo)}}) {
-				g.Keys = saved
-				return
+			// twice: members / fields drawn from the pool, and one that is nowhere
+			for _, force := range []string{"", "zz"} {
+				if force != "" {
+					for _, f := range []string{fam, wrongOf[fam]} {
+						for _, setup := range sweepSetup[f] {
+							if !plain(setup) {
+								g.Keys = saved
+								return
+							}
+						}
+					}
+				}
+				g.MemberForce = force
+				g.ResetKeySeq(seq...)
+				var args []string
+				if cg.Combs != nil {
+					args = g.VectorOpts(cg, nil)
+				} else {
+					args = g.Vector(cg, 0)
+				}
+				g.ResetKeySeq()
+				g.MemberForce = ""
+				blockNo++
+				if !runBlock([][]string{{"SET", "marker1", fmt.Sprint("a", blockNo)}, args, {"SET", "marker2", fmt.Sprint("b", blockNo)}}) {
+					g.Keys = saved
+					return
+				}
 			}
 		}
 	}
